@@ -105,11 +105,13 @@ def verify_contract(c, src_index, unroll=0, timeout_ms=20000, registry=REGISTRY,
                 if len(inner) != 1:
                     raise Unsupported(f'{len(inner)} inner functions named {c.nested} in {q}')
                 from .values import Frame, InterpFunction
+                set_loop_ordinals(inner[0])          # loop ordinals of a nested contract count inside the inner function
                 cfr = Frame(f, None, fn.__globals__)
                 cfr.locals.update(c.closure(cx))
                 q = c.nested_qualname
                 a_ = inner[0].args
                 f = InterpFunction(inner[0], cfr, fn.__globals__, q, None, None, [it.eval(d, cfr) for d in a_.defaults], {})
+                cfr.locals.setdefault(c.nested, f)      # the inner function can refer to itself (recursion)
                 registry.under_proof = ('nested', q)
             f._force_sync = True
             it.loop_specs = {(k if isinstance(k, tuple) else (q, k)): v for k, v in c.loops.items()}
